@@ -292,7 +292,12 @@ impl PartialEq for Value {
             (Self::List(av, asep, ab), Self::List(bv, bsep, bb)) => {
                 av == bv && asep == bsep && ab == bb
             }
-            (Self::Map(a), Self::Map(b)) => a == b,
+            // Maps are equal if they have equal keys mapped to equal
+            // values, regardless of order.
+            (Self::Map(a), Self::Map(b)) => {
+                a.len() == b.len()
+                    && a.iter().all(|(k, v)| b.get(k) == Some(v))
+            }
             (Self::UnaryOp(a, av), Self::UnaryOp(b, bv)) => {
                 a == b && av == bv
             }
